@@ -733,6 +733,12 @@ for lo, hi, d in [(0.0, 1.0, 2.0), (0.0, 1.0, 1.0), (0.0, 1.0, 3.0), (0.0, 1.0, 
                   (0.0, 1e-9, 1.0), (5.0, 5.0, 1.0), (5.0, 5.0, 0.0), (-0.0, 0.0, 1.0), (0.0, 1.0, 0.0), (0.0, 1.0, -0.25),
                   (0.0, 1.0, -4.0), (0.0, 1.0, -1.0), (0.0, 0.25, -0.5), (1.0, 0.0, 0.25), (0.0, 1.0, 1e-4)]:
     axis_cases.append((lo, hi, d, "boundary"))
+# thin axes far from the origin: extent ~1e-6..1e-5 of the coordinate, pixel a fraction of the extent
+for lo, rel in ((0.25, 8e-6), (40.0, 7.5e-6), (1000.0, 5e-6), (-3.5, 4e-6), (1.0, 1e-6), (1e3, 2e-9)):
+    for npx in (3, 4, 10):
+        L = abs(lo) * rel
+        axis_cases.append((lo, lo + L, L / npx, "thin-far-from-origin"))
+        axis_cases.append((lo + L, lo, L / npx, "thin-far-from-origin"))
 for _ in range(150 if Q else 8000):
     lo = float(rng.normal() * 10.0 ** rng.integers(-3, 2))
     L = float(10.0 ** rng.uniform(-3, 1))
